@@ -2513,36 +2513,32 @@ func genGlobalVarDecl(nodes []*node, sc *scope) (*node, error) {
 		deps[n] = getVarDependencies(n, sc)
 	}
 
+	// As specified by Go: repeatedly select the earliest variable in declaration
+	// order which has no dependency on an uninitialized variable.
 	inited := map[*node]bool{}
-	revisit := []*node{}
-	for {
-		for _, n := range nodes {
+	for len(nodes) > 0 {
+		next := -1
+		for i, n := range nodes {
 			canInit := true
 			for _, d := range deps[n] {
 				if !inited[d] {
 					canInit = false
 				}
 			}
-			if !canInit {
-				revisit = append(revisit, n)
-				continue
+			if canInit {
+				next = i
+				break
 			}
-
-			varNode.child = append(varNode.child, n)
-			inited[n] = true
 		}
-
-		if len(revisit) == 0 || equalNodes(nodes, revisit) {
-			break
+		if next < 0 {
+			return nil, nodes[0].cfgErrorf("variable definition loop")
 		}
-
-		nodes = revisit
-		revisit = []*node{}
+		n := nodes[next]
+		varNode.child = append(varNode.child, n)
+		inited[n] = true
+		nodes = append(nodes[:next:next], nodes[next+1:]...)
 	}
 
-	if len(revisit) > 0 {
-		return nil, revisit[0].cfgErrorf("variable definition loop")
-	}
 	wireChild(varNode)
 	return varNode, nil
 }
